@@ -26,12 +26,12 @@ def model(vals, k):
 class BinOp(Case):
     prop = 'C16'
     name = 'C16.binop'
-    bounds = ('a op b for op in + - ^ & | on Poly over Z/2^k, k in {1,2,3,8,32,64} and k=0 (integers, non-negative coefficients below 2^15; - excluded), dims (m,n) in 0..4^2 (quick) / 0..6^2 (thorough), '
+    bounds = ('a op b for op in + - ^ & | on Poly over Z/2^k, k in {1,2,3,8,32,64} and k=0 (integers, non-negative coefficients below 2^15; - excluded), dims (m,n) in 0..4^2 (quick) / 0..8^2 and every ring 1..16,24,32,48,63,64,65 (thorough), '
               'both operand orders, all coefficients symbolic: every coefficient, result dimension (= longer operand; empty op empty stays empty), operands unchanged')
 
     def shapes(self, tier):
-        D = 5 if tier == 'quick' else 7
-        for k in RINGS + [0]:
+        D = 5 if tier == 'quick' else 9
+        for k in (RINGS + [0] if tier == 'quick' else list(range(1, 17)) + [24, 32, 48, 63, 64, 65, 0]):
             for m in range(D):
                 for n in range(D):
                     for op in ('add', 'sub', 'xor', 'and', 'or'):
